@@ -13,8 +13,8 @@ func init() {
 	Registry["C09"] = c09
 	Metas["C09"] = Meta{Level: "other", NeedCG: true, Ref: true,
 		Technique: "static analysis: snapshot/revert pairing across the begin/exec/end closures, sibling check of nonce discipline at every nonce-bumping site, bound-before-slice on precompile input, nil-ness of the decoded transaction, publish order of the verifier",
-		Explain: "Static analysis of block execution in chain/app/evm and the AnnChain-specific precompile. Decided: (R1) each transaction runs between a state.Snapshot() taken by the begin callback and, on the error edge of the end callback, RevertToSnapshot of that same id; application-level accumulators are appended only on the success edge and the invalid list only on the error edge; the executor calls begin once and end on every completed iteration; (R2) every site that bumps an account nonce during execution (TransitionDb, executeKVTx) is dominated by a comparison of the account nonce with the transaction's nonce whose mismatch edges return errors (CREATE's creator-nonce bump exempt: reference-equivalent opcode semantics, C10); (R3) every slice of the input of a precompile that is not reference-equivalent (AdminOP.Run) is preceded by a length test; (R4) the execution callback is not invoked with a nil transaction; (R5) publish order in the parallel verifier (shared with C05-R4). (R6) the execution core the callbacks call into (state journal, StateDB, TransitionDb, EVM.create/Call) is reference-equivalent (shared with C10/C11). Noted, not an obligation: Hook.Sync runs the application callback in a fresh goroutine without recover, so any panic under OnExecute is process-fatal — which is why R3/R4 are totality obligations. NOT decided: completeness of the state journal (C11), receipt contents, EVM totality (C10).",
-		Assume: []string{"eth/core/state journal reverts exactly (C11)", "etypes.Sender is deterministic"},
+		Explain:   "Static analysis of block execution in chain/app/evm and the AnnChain-specific precompile. Decided: (R1) each transaction runs between a state.Snapshot() taken by the begin callback and, on the error edge of the end callback, RevertToSnapshot of that same id; application-level accumulators are appended only on the success edge and the invalid list only on the error edge; the executor calls begin once and end on every completed iteration; (R2) every site that bumps an account nonce during execution (TransitionDb, executeKVTx) is dominated by a comparison of the account nonce with the transaction's nonce whose mismatch edges return errors (CREATE's creator-nonce bump exempt: reference-equivalent opcode semantics, C10); (R3) every slice of the input of a precompile that is not reference-equivalent (AdminOP.Run) is preceded by a length test; (R4) the execution callback is not invoked with a nil transaction; (R5) publish order in the parallel verifier (shared with C05-R4). (R6) the execution core the callbacks call into (state journal, StateDB, TransitionDb, EVM.create/Call) is reference-equivalent (shared with C10/C11). Noted, not an obligation: Hook.Sync runs the application callback in a fresh goroutine without recover, so any panic under OnExecute is process-fatal — which is why R3/R4 are totality obligations. NOT decided: completeness of the state journal (C11), receipt contents, EVM totality (C10).",
+		Assume:    []string{"eth/core/state journal reverts exactly (C11)", "etypes.Sender is deterministic"},
 	}
 }
 
@@ -184,7 +184,9 @@ func c09R2(c *Ctx) {
 		c.R.Ob(rule, "AsMessage:checkNonce=true", ok, c.P.Pos(f.F.Pos()), fname(f), "messages built from signed transactions must ask for the nonce check")
 	}
 	// no other execution-path site bumps a nonce
-	for _, s := range c.AllCalls(func(n string) bool { return strings.HasSuffix(n, ".SetNonce") && (strings.Contains(n, "StateDB") || strings.Contains(n, "stateObject")) }) {
+	for _, s := range c.AllCalls(func(n string) bool {
+		return strings.HasSuffix(n, ".SetNonce") && (strings.Contains(n, "StateDB") || strings.Contains(n, "stateObject"))
+	}) {
 		n := core.Short(fname(s.Fn))
 		if !strings.HasPrefix(n, "chain/app/evm.") && !strings.HasPrefix(n, "eth/core.(*StateTransition)") {
 			continue
@@ -213,7 +215,9 @@ func c09R3(c *Ctx) {
 			if sl.High != nil {
 				if _, isConst := sl.High.(*ssa.Const); !isConst {
 					hi := cfgx.Expr(sl.High)
-					okHi := strings.Contains(hi, "len(a1)") && f.HasGuard(ins, func(g string) bool { return strings.HasSuffix(g, " >= 52)") && strings.Contains(g, "len(a1)") && strings.HasPrefix(g, "(phi(") })
+					okHi := strings.Contains(hi, "len(a1)") && f.HasGuard(ins, func(g string) bool {
+						return strings.HasSuffix(g, " >= 52)") && strings.Contains(g, "len(a1)") && strings.HasPrefix(g, "(phi(")
+					})
 					c.R.Ob(rule, "slice:variable-upper-bound-clamped-and-ordered", okHi, c.Pos(ins), fname(f), "upper bound "+shorten(hi)+" must be clamped to len(input) and be >= the lower bound")
 				}
 			}
